@@ -305,6 +305,7 @@ class RealRun(Harness):
             yield 'each-json-element-names-its-target', obs['json_targets'] is True
         else:
             yield 'two-result-blocks', obs['seps'] == 1 and obs['good']
+            yield 'each-block-names-its-target', obs['good'] and obs['bad']
         yield 'exit-status-ranked-max', r in (1, -1) or (self.bad.startswith('probe-') and r in (0, 2, 3))
         if self.bad in ('refused', 'unresolvable', 'silent'):
             # a target that cannot be reached is a connection error (the healthy target here rates below it), reported as such - not an internal error
